@@ -1067,6 +1067,37 @@ def across_labels(case):
   return sorted({l for c in case['cases'] for l in pytree_labels(c)})
 
 
+# ----------------------------------------------------- wide integer entries
+
+def run_transform_wide_int(case):
+  """int32 vectors whose entries need up to 30 bits (sums stay below 2^31):
+  the transform of an integer vector is the exact integer H x, in int32 -- the
+  additions and subtractions are done in the input's own type, nothing is
+  rounded through a narrower mantissa on the way."""
+  p = case['p']
+  n = 2 ** p
+  vals = [(v % (2 ** (30 - p))) * (1 if i % 3 else -1) for i, v in enumerate(case['vals'])]
+  vals = (vals * n)[:n]
+  x = jnp.asarray(np.asarray(vals, np.int32))
+  want = dense_h(p).astype(np.int64) @ np.asarray(vals, np.int64)
+  got = call_transform(x, case['s'], 'kw')
+  g = np.asarray(got)
+  require(g.dtype == np.int32 and g.shape == (n,), 'wide_int:dtype_or_shape', f'{g.dtype}{g.shape}')
+  bad = np.nonzero(g.astype(np.int64) != want)[0]
+  require(bad.size == 0, 'wide_int:transform_of_integers_not_exact',
+          lambda: f'n={n} block 2^{case["s"]}: index {int(bad[0])}: got {int(g[bad[0]])} '
+                  f'want {int(want[bad[0]])} ({bad.size} of {n} off)')
+  return []
+
+
+@st.composite
+def wide_int_strategy(draw, tier):
+  # (few shapes: every (length, block) pair is a compilation)
+  p, s = draw(st.sampled_from([(2, 1), (3, 2), (4, 2), (5, 3), (6, 7), (3, 1), (1, 1)]))
+  return {'p': p, 's': s, 'vals': draw(st.lists(st.integers(2 ** 24, 2 ** 30), min_size=1,
+                                                max_size=16))}
+
+
 CHECKS = [
     Check(name='transform_grid', run=run_grid, cases=grid_cases,
           labels=transform_labels, nontrivial=transform_nontrivial, time_share=1.5,
@@ -1084,6 +1115,12 @@ CHECKS = [
           labels=transform_labels, nontrivial=transform_nontrivial,
           budget={'quick': 1000, 'thorough': 20000}, time_share=1.0,
           doc='T(a x + b y) = a T(x) + b T(y) for dyadic scalars; T(T(x)) = n x'),
+    Check(name='transform_wide_integers', run=run_transform_wide_int, strategy=wide_int_strategy,
+          labels=lambda c: ['p:%d' % c['p'], 's:%d' % c['s']],
+          nontrivial=lambda c, ls: c['p'] >= 2,
+          budget={'quick': 300, 'thorough': 6000}, time_share=0.5,
+          doc='int32 vectors with entries of 25-30 significant bits: the transform is the '
+              'exact integer H x in int32'),
     Check(name='rotation_roundtrip', run=with_key_kind(run_rotation), strategy=rotation_strategy,
           labels=rotation_labels, nontrivial=rotation_nontrivial,
           budget={'quick': 1200, 'thorough': 30000}, time_share=3.0,
